@@ -461,9 +461,6 @@ func (h *treeHarness) gen(depth int, under string) *tv {
 		for c.kind == "P" || c.kind == "N" || c.kind == "I" || c.kind == "bn" || c.kind == "o" || c.kind == "b" || c.kind == "S" || c.kind == "B" {
 			c = h.gen(depth-1, "P")
 		}
-		if under == "M" && c.kind == "L" {
-			c = &tv{kind: "T", items: []tItem{{v: &tv{kind: "s", m: h.fresh()}, has: true, tag: "secret"}, {v: &tv{kind: "o"}}}}
-		}
 		return &tv{kind: "P", child: c}
 	case r < 9: // interface-held value (struct fields only)
 		if under != "T" {
@@ -544,9 +541,22 @@ func (h *treeHarness) gen(depth int, under string) *tv {
 				v = &tv{kind: "P", child: h.genStruct(depth - 1)}
 			case 2:
 				v = h.gen(depth-1, "M")
-				for v.kind == "I" || v.kind == "P" || v.kind == "bn" {
+				for v.kind == "I" || v.kind == "bn" {
 					v = leaf()
 				}
+			case 3:
+				// a pointer to a slice: of strings, of structs, of interfaces
+				var sl *tv
+				switch p.intn(3) {
+				case 0:
+					sl = &tv{kind: "S", ms: []int{h.fresh(), h.fresh()}}
+				case 1:
+					sl = &tv{kind: "L", child: h.genStruct(0)}
+					sl.items = append(sl.items, tItem{v: h.cloneFresh(sl.child)})
+				default:
+					sl = &tv{kind: "A", items: []tItem{{v: &tv{kind: "s", m: h.fresh()}}, {v: h.genStruct(0)}}}
+				}
+				v = &tv{kind: "P", child: sl}
 			default:
 				v = leaf()
 				for v.kind == "bn" {
